@@ -2853,6 +2853,18 @@ fn eval_built_in_call(
                 arg_values,
             )?;
 
+            if env.enforce_sandbox {
+                let mut saved_values = vec![receiver_value.clone()];
+                for value in arg_values.iter().rev() {
+                    saved_values.push(value.clone());
+                }
+
+                return Err((
+                    RestoreValues(saved_values),
+                    EvalError::ForbiddenInSandbox(receiver_pos.clone()),
+                ));
+            }
+
             let mut line = String::new();
             let v = match std::io::stdin().read_line(&mut line) {
                 Ok(_) => {
